@@ -1,4 +1,5 @@
 """C05 — the exact algorithm returns a global optimum, with or without CPLEX."""
+import os
 import sys
 from common import *
 import gen
@@ -155,9 +156,133 @@ class Ilp(Suite):
         acc["components>1"] = acc.get("components>1", 0) + int(len(out.get("P", [])) > 1)
         acc["exceptions"] = acc.get("exceptions", 0) + int("err" in out)
 
+def to_units_tol(x):
+    """like to_units, for values that the library computed as float sums of non-dyadic grid penalties (3999/8000 ...):
+    the nearest grid point when it is closer than 1e-6 units"""
+    if x is None:
+        return None
+    v = float(x) * ONE
+    r = round(v)
+    return int(r) if abs(v - r) < 1e-6 else None
+
+
+STANDIN = os.path.join(os.path.dirname(os.path.abspath(__file__)), "standin")
+
+
+class Cplex(Suite):
+    """The CPLEX models (ExactAlgorithmCplex optimize on / off, one / all optimal consensuses, the "optim1" variant)
+    and the CPLEX branch of the selector, run on a stand-in for the CPLEX Python API (harness/standin/cplex: same
+    calls, CBC underneath - CPLEX itself is not installed). For the configurations that solve one program over the
+    whole dataset the program is compared row for row with the model (ILP.cplex_rows) and every solution is checked
+    feasible for the MODEL's rows and decoded by the model's decoder; "all optimal consensuses" is compared with the
+    set of all minimisers enumerated in Coq."""
+    name = "cplex"
+    imports = ["Scheme", "Rank", "Partition", "ILP", "Judge.JOpt", "Judge.JILP"]
+    judge = "judge_cplex"
+    show = "show_cplex"
+    ctype = "c05cplex"
+
+    def gen(self, tier, rng):
+        self.tier = tier
+        cases = [{"s": gen.GENERIC, "D": [[[1], [2], [3]], [[2], [3], [1]], [[3], [1], [2]]]},
+                 {"s": gen.UNIFYING, "D": [[[3], [2], [1], [4]], [[1, 3, 4]], [[3, 4]], []]},
+                 # tie cheaper than both orders by less than the 0.001 of the no-tie test (F15)
+                 {"s": [[0., 1., 1., 0., 1., 0.], [0.499875, 0.499875, 0., 0., 0., 0.]], "D": [[[1], [2]], [[2], [1]]]}]
+        prs = gen.all_partial_rankings([0, 1, 2])
+        for _ in range(25 if tier == "quick" else 400):
+            cases.append({"s": opt_scheme(rng), "D": [rng.choice(prs) or [[0]], rng.choice(prs), rng.choice(prs)]})
+        for _ in range(20 if tier == "quick" else 300):
+            cases.append({"s": p_scheme(rng), "D": cyclic_dataset(rng, 4 if tier == "quick" else 5)})
+        for _ in range(15 if tier == "quick" else 300):
+            # penalties of ties just below / at / above the average of the two orders, on the 1/8000 grid
+            t = 0.5 + rng.choice([-4, -3, -2, -1, 0, 1]) * 0.000125
+            cases.append({"s": [[0., 1., 1., 0., 1., 0.], [t, t, 0., 1., 1., 0.]], "D": cyclic_dataset(rng, 4)})
+        for _ in range(30 if tier == "quick" else 600):
+            nmax = rng.choice([3, 4, 4]) if tier == "quick" else rng.choice([4, 5, 5])
+            cases.append({"s": opt_scheme(rng), "D": layered_dataset(rng, nmax, 4) if rng.random() < 0.5 else gen.random_dataset(rng, nmax, 4)})
+        return cases
+
+    def run(self, case):
+        import pulp  # noqa: F401  (pulp must be imported BEFORE the stand-in is visible: pulp itself probes "import cplex")
+        import corankco.algorithms.exact.exactalgorithmcplex as cpx_mod
+        from corankco.algorithms.exact.exactalgorithmcplex import ExactAlgorithmCplex
+        from corankco.algorithms.exact.exactalgorithmcplexforpaperoptim1 import ExactAlgorithmCplexForPaperOptim1
+        ds, sc = mk(case["D"], case["s"])
+        out = {"D": gen.observe(ds), "U": gen.id_order(ds), "runs": [], "progs": [], "all": None}
+        sys.path.insert(0, STANDIN)
+        had = hasattr(cpx_mod, "cplex")
+        try:
+            import cplex as standin
+            cpx_mod.cplex = standin
+            configs = [(10, lambda: ExactAlgorithmCplex(optimize=True), True, None),
+                       (11, lambda: ExactAlgorithmCplex(optimize=False), True, False),
+                       (12, lambda: ExactAlgorithmCplex(optimize=False), False, False),
+                       (13, lambda: ExactAlgorithmCplexForPaperOptim1(), True, True),
+                       (14, lambda: ExactAlgorithm(optimize=True), True, None),
+                       (15, lambda: ExactAlgorithm(optimize=False), True, None)]
+            for cid, mkalg, one, notie in configs:
+                del standin.LAST[:]
+                try:
+                    alg = mkalg()
+                    cons = alg.compute_consensus_rankings(ds, sc, one)
+                    sc_rep = cons.kemeny_score
+                    out["runs"].append({"id": cid, "cons": [lst(r) for r in cons.consensus_rankings], "flag": bool(cons.necessarily_optimal),
+                                        "score": to_units_tol(sc_rep), "inner": type(getattr(alg, "_alg", alg)).__name__})
+                    if notie is not None and len(out["U"]) >= 2:
+                        assert len(standin.LAST) == 1, len(standin.LAST)
+                        P = standin.LAST[0]
+                        pool = P._pool if not one else [P._values]
+                        out["progs"].append({"notie": notie,
+                                             "rows": [(list(zip(coefs, names)), sense, rhs) for (names, coefs), sense, rhs in
+                                                      zip(P.linear_constraints.rows, P.linear_constraints.senses, P.linear_constraints.rhs)],
+                                             "obj": list(zip(P.variables.obj, P.variables.names)),
+                                             "pool": [list(zip(P.variables.names, vals)) for vals in pool],
+                                             "cons": [lst(r) for r in cons.consensus_rankings]})
+                    if cid == 12:
+                        out["all"] = [lst(r) for r in cons.consensus_rankings]
+                except Exception as e:
+                    out["runs"].append({"id": cid, "err": type(e).__name__ + ": " + str(e)[:100]})
+        finally:
+            sys.path.remove(STANDIN)
+            sys.modules.pop("cplex", None)
+            if not had and hasattr(cpx_mod, "cplex"):
+                del cpx_mod.cplex
+        return out
+
+    def term(self, case, out):
+        runs = []
+        for r in out["runs"]:
+            if "err" in r:
+                runs.append(f"(mkEX {nat(r['id'])} [] false None)")
+            else:
+                runs.append(f"(mkEX {nat(r['id'])} {clist([ranking_term(c) for c in r['cons']])} {cbool(r['flag'])} {copt(r['score'], z)})")
+        progs = []
+        for p in out["progs"]:
+            rows = clist([f"(mkRow {clist(['(' + z(int(round(c))) + ', ' + var_term(v) + ')' for c, v in terms])} {cbool(sense == 'E')} {z(int(round(rhs)))})"
+                          for terms, sense, rhs in p["rows"]])
+            obj = clist([f"({z(to_units_tol(c))}, {var_term(v)})" for c, v in p["obj"]])
+            pool = clist([clist([f"({var_term(v)}, {z(1 if abs(val - 1) < 0.001 else 0)})" for v, val in vals]) for vals in p["pool"]])
+            integral = all(val in (0.0, 1.0) for vals in p["pool"] for _, val in vals) and all(s in "EL" for _, s, _ in p["rows"]) \
+                and all(float(c).is_integer() for terms, _, rhs in p["rows"] for c, _ in terms)
+            progs.append(f"(mkCP {cbool(p['notie'])} {rows} {obj} {pool} {cbool(integral)} {clist([ranking_term(c) for c in p['cons']])})")
+        check_all = out["all"] is not None and len(out["U"]) <= (4 if getattr(self, "tier", "quick") == "quick" else 5)
+        allr = "(Some " + clist([ranking_term(c) for c in out["all"]]) + ")" if check_all else "None"
+        return (f"(mkC05C {scheme_term(case['s'])} {dataset_term(out['D'])} {natlist(out['U'])} {clist(runs)} {clist(progs)} {allr})")
+
+    def nontrivial(self, case, out):
+        return len(out["U"]) >= 3
+
+    def stats(self, case, out, acc):
+        acc[f"n={len(out['U'])}"] = acc.get(f"n={len(out['U'])}", 0) + 1
+        acc["exceptions"] = acc.get("exceptions", 0) + int(any("err" in r for r in out["runs"]))
+        acc["programs_compared"] = acc.get("programs_compared", 0) + len(out["progs"])
+        acc["several_optima_returned"] = acc.get("several_optima_returned", 0) + int(out["all"] is not None and len(out["all"]) > 1)
+        acc["selector_used_cplex_model"] = acc.get("selector_used_cplex_model", 0) + int(any(r.get("inner") == "ExactAlgorithmCplex" for r in out["runs"] if r["id"] in (14, 15)))
+        acc["no_tie_rows_present"] = acc.get("no_tie_rows_present", 0) + int(any(len(t) == 1 and t[0][1].startswith("t_") for p in out["progs"] for t, _, _ in p["rows"]))
+
 
 if __name__ == "__main__":
-    main("C05", [Exact(), Ilp()],
+    main("C05", [Exact(), Ilp(), Cplex()],
          level_note="see MANIFEST",
          rule="witnesses of F1 / F2 / F6; 3-ranking datasets over {0,1,2}; layered and random datasets up to 6 (7) elements, schemes biased to "
               "B5 != T5; four configurations per dataset (selector optimize on/off, free-solver model one / all); the optimum is recomputed "
